@@ -9,7 +9,7 @@ BUDGET = {
     "quick": dict(shards=8, cases=3000, deadline=60),
     "thorough": dict(shards=16, cases=60000, deadline=900),
 }
-DECIDING = ["reseat", "tm.from_snap_reseat", "tm.reseat"]
+DECIDING = ["reseat", "tm.from_snap_reseat", "tm.reseat", "c11.kf_witness"]
 REQUIRED_REACH = {
     "quick": ["reseat.partial.replace", "reseat.partial.insert"],
     "thorough": ["reseat.partial.replace", "reseat.partial.insert", "reseat.extend_bpm", "reseat.extend_metronome"],
@@ -58,9 +58,21 @@ def enum3_slice(k, size=150):
     return out, total
 
 
+def kf_witnesses():
+    """Pinned inputs of the open known finding KF-C11-extend-branches with the output the current code gives
+    (known_findings.json, read-only): a change in how those inputs are handled is a *different* violation."""
+    from rv import core
+
+    for f in core.load_known_findings().get("findings", []):
+        if f["id"] == "KF-C11-extend-branches":
+            return f.get("pinned_outputs", [])
+    return []
+
+
 def pinned(tier):
     lists = enum2()
-    return [dict(cls="enum_half_beat_2", lists=lists[i:i + 141], initial=0.0) for i in range(0, len(lists), 141)]
+    return [dict(cls="enum_half_beat_2", lists=lists[i:i + 141], initial=0.0) for i in range(0, len(lists), 141)] + \
+        [dict(cls="kf_witness", lists=[w["changes"]], initial=w["initial"], expected=w["outputs"], wid=i) for i, w in enumerate(kf_witnesses())]
 
 
 def gen_bpm(rng):
@@ -74,7 +86,7 @@ def gen(rng, tier, k):
         lists, total = enum3_slice(k)
         return dict(cls="enum_half_beat_3", lists=lists, initial=initial)
     cls = rng.choice(["random_grid", "random_grid", "near_line", "near_line", "seated", "const_other_metronome",
-                      "mixed_metronome_seated", "long"])
+                      "mixed_metronome_seated", "long", "unsorted_direct"])
     met = 4
     if cls == "const_other_metronome":
         met = rng.choice([3, 5, 7])
@@ -104,6 +116,35 @@ def gen(rng, tier, k):
         b = tot - (tot // cur_met) * cur_met
         chs.append([m, fs(b), gen_bpm(rng), cur_met])
     return dict(cls=cls, lists=[chs], initial=initial)
+
+
+def witness_outputs(initial, mk):
+    """What the three entry points give for a list: [(offset, bpm, metronome)...] or the exception name."""
+    from reamber.algorithms.timing.TimingMap import TimingMap
+
+    out = {}
+    for name, f in (("reseat_fn", lambda: [(float(b.snap.measure), float(b.snap.beat), float(b.bpm), float(b.metronome)) for b in TimingMap.reseat_bpm_changes_snap(mk())]),
+                    ("from_snap", lambda: [(float(b.offset), float(b.bpm), float(b.metronome)) for b in TimingMap.from_bpm_changes_snap(initial, mk(), True).bpm_changes_offset]),
+                    ("tm_reseat", lambda: [(float(b.offset), float(b.bpm), float(b.metronome)) for b in TimingMap.from_bpm_changes_snap(initial, mk(), False).reseat().bpm_changes_offset])):
+        try:
+            out[name] = [[round(x, 9) for x in r] for r in f()]
+        except Exception as e:
+            out[name] = "raises " + type(e).__name__
+    return out
+
+
+def same_outputs(a, b):
+    if set(a) != set(b):
+        return False
+    for k in a:
+        x, y = a[k], b[k]
+        if isinstance(x, str) or isinstance(y, str):
+            if x != y:
+                return False
+            continue
+        if len(x) != len(y) or any(len(r) != len(s) or any(abs(p - q) > 1e-6 + 1e-9 * abs(q) for p, q in zip(r, s)) for r, s in zip(x, y)):
+            return False
+    return True
 
 
 def setup(ctx):
@@ -139,6 +180,21 @@ def run(ctx, case):
         def mk():
             return [BpmChangeSnap(float(v), int(t), Snap(int(m), F(b), int(t))) for m, b, v, t in chs]
 
+        if case["cls"] == "kf_witness":
+            with ctx.quiet():
+                got = witness_outputs(initial, mk)
+            if not same_outputs(got, case["expected"]):
+                ctx.violate("C11", "c11.kf_witness", "behaviour_changed",
+                            f"pinned input {case['wid']} of KF-C11-extend-branches no longer gives the recorded output: recorded {case['expected']}, now {got}",
+                            dict(changes=chs, recorded=case["expected"], now=got), dict(witness=True))
+            else:
+                ctx.held("c11.kf_witness", "recorded_output")
+        if case["cls"] == "unsorted_direct":
+            import random as _r
+            def mk(mk_=mk, seed=len(chs)):
+                lst = mk_()
+                _r.Random(seed).shuffle(lst)
+                return lst
         for f in (
             lambda: TimingMap.reseat_bpm_changes_snap(mk()),
             lambda: TimingMap.from_bpm_changes_snap(initial, mk(), True),
